@@ -144,7 +144,7 @@ def run(ctx: Ctx) -> int:
 		raise Machinery(f'TLC: TokLayout.tla violates one of its own properties: {laws.out[-1200:]}')
 	ctx.log(f'TLC: {laws.distinct} states (programs x layouts), IndentsBalance / ValidIndent / LayoutInsensitive hold')
 	cases = []
-	for cfg in (['TokLayout_emit_2_2.cfg', 'TokLayout_emit_3_1.cfg'] if quick else ['TokLayout_emit_2_3.cfg', 'TokLayout_emit.cfg']):
+	for cfg in (['TokLayout_emit_2_2.cfg', 'TokLayout_emit_3_1.cfg', 'TokLayout_emit_deep.cfg'] if quick else ['TokLayout_emit_2_3.cfg', 'TokLayout_emit.cfg', 'TokLayout_emit_deep.cfg']):
 		res = tlc.run('TokLayout', cfg, workers=1, timeout=2400, heap='8g')
 		cases += [json.loads(line) for line in res.lines('CASE ')]
 	seen = {}
